@@ -182,6 +182,8 @@ class Tr:
                 return '(ECall "np.vstack" [%s])' % self.expr(e.args[0])
             if dotted(f) is not None and (dotted(f) + '()') in self.consts and not e.args and not e.keywords:
                 return '(EConst %s)' % const_value(self.consts[dotted(f) + '()'])          # a data-module function returning a literal
+            if dotted(f) == 'itertools.product' and len(e.args) == 1 and len(e.keywords) == 1 and e.keywords[0].arg == 'repeat':
+                return '(ECall "itertools.product" [%s; %s])' % (self.expr(e.args[0]), self.expr(e.keywords[0].value))
             if dotted(f) in ('np.power', 'numpy.power') and len(e.args) == 2 and not e.keywords:
                 return '(ECall "np.power" [%s; %s])' % (self.expr(e.args[0]), self.expr(e.args[1]))    # a float function: an oracle of the tie
             if dotted(f) == 'math.log' and len(e.args) == 2 and not e.keywords:
@@ -322,6 +324,20 @@ class Tr:
         return '(SAssign %s %s)' % (self.target(t), rhs)
 
     def stmt1(self, s):
+        if isinstance(s, ast.FunctionDef):
+            # a nested helper that only prints (its body translates to nothing): its calls are dropped like message calls
+            inner = Tr(self.consts)
+            try:
+                body = inner.block(s.body)
+            except Untranslatable:
+                body = None
+            if body is not None and set(body.replace('(', ' ').replace(')', ' ').split()) <= {'SSkip', 'SIf', 'SSeq'} | set(t for t in body.replace('(', ' ').replace(')', ' ').split() if not t.startswith('S')) \
+                    and 'SAssign' not in body and 'SReturn' not in body and 'SRaise' not in body and 'SAppend' not in body and 'SSetItem' not in body and 'SFor' not in body and 'SWhile' not in body:
+                self.local_msg = getattr(self, 'local_msg', set()) | {s.name}
+                return 'SSkip'
+            raise Untranslatable('nested function %s does more than print' % s.name)
+        if isinstance(s, ast.Expr) and isinstance(s.value, ast.Call) and isinstance(s.value.func, ast.Name) and s.value.func.id in getattr(self, 'local_msg', set()):
+            return 'SSkip'
         if isinstance(s, ast.Assign) and len(s.targets) == 1 and isinstance(s.value, ast.Call) and dotted(s.value.func) == 'rng.Random' \
                 and not s.value.args and isinstance(s.targets[0], ast.Name):
             self.rngs.add(s.targets[0].id)                      # rand = rng.Random(): the generator is the oracle
@@ -516,6 +532,7 @@ FUNCS = [
     ('g_fw_get_sequence', 'localcider/sequenceParameters.py', 'SequenceParameters', 'get_sequence', []),
     ('g_verify_pH', 'localcider/sequenceParameters.py', 'SequenceParameters', '__verify_pH', []),
     ('g_charge_at_pH', 'localcider/backend/sequence.py', 'Sequence', 'charge_at_pH', ['data.aminoacids.', 'aminoacids.']),
+    ('g_phosdist', 'localcider/backend/sequence.py', 'Sequence', 'calculateKappaDistOfPhosphoStates', []),
     ('g_SCD', 'localcider/backend/sequence.py', 'Sequence', 'sequence_charge_decoration', []),
     ('g_countPos', 'localcider/backend/sequence.py', 'Sequence', 'countPos', []),
     ('g_countNeg', 'localcider/backend/sequence.py', 'Sequence', 'countNeg', []),
